@@ -32,6 +32,10 @@ def setup(J):
         # (b) out-ports nobody consumes are drained automatically
         for g, drop in (("g7", "r"), ("g4", "q"), ("g6b", "j"), ("g3", "q")):
             jobs.append(J.with_delay_fallback(J.wf("C16", g, 2, 1, 2, "func", oracles=["nohang", "clean", "c04", "c05"], tier=tier, events_dep=False, drop_proc=drop, id=f"C16-dangling-{g}-minus-{drop}")))
+        # a dead-end out-port on a process UPSTREAM of the driver (a process without out-ports): the sink drains it
+        # while the driver runs (streams longer than the buffer)
+        for i in (2, 3):
+            jobs.append(J.with_delay_fallback(J.wf("C16", "g7c", i, 1, 2, "func", oracles=["nohang", "clean", "c04", "c05"], tier=tier, events_dep=False, id=f"C16-dangling-g7c-i{i}")))
         # a dead-end PARAMETER out-port whose owner also feeds the process that ends the (dead-end) file stream:
         # both dead ends must be drained at the same time (streams longer than the buffers)
         for i in ((2, 3) if q else (2, 3, 4)):
